@@ -739,6 +739,23 @@ func (x *Exec) binop(st *State, op token.Token, av, bv Value, xt types.Type, rt 
 			}
 			return Scalar{Not(eq)}
 		}
+		// a pointer into an object (field address) against nil: nil exactly when the object reference is
+		isNilPtr := func(v Value) bool {
+			switch u := v.(type) {
+			case Scalar:
+				return u.T.S == "0"
+			case PtrV:
+				return u.Kind == PHeap && len(u.Path) == 0 && u.Ref.S == "0"
+			}
+			return false
+		}
+		if a.Kind == PHeap && len(a.Path) > 0 && isNilPtr(bv) {
+			eq := Eq(a.Ref, IntLit(0))
+			if op == token.EQL {
+				return Scalar{eq}
+			}
+			return Scalar{Not(eq)}
+		}
 		if sb, ok := bv.(Scalar); ok && sb.T.S == "0" && a.Kind == PHeap && len(a.Path) == 0 {
 			eq := Eq(a.Ref, IntLit(0))
 			if op == token.EQL {
